@@ -6,6 +6,11 @@
 #include "mp/sol-reader2.h"
 #include "mp/sol-reader2.hpp"
 
+extern "C" {
+#include "api/c/sol-handler-c.h"
+}
+#include "api/c/sol-handler-c-impl.h"
+
 namespace iosim {
 namespace {
 
@@ -101,6 +106,77 @@ class SolRec : public mp::SOLHandler {
   }
 };
 
+
+// ---- the same recording consumer as a C callback table (api/c/sol-handler-c.h): the library wraps it in
+// NLW2_SOLHandler_C_Impl, so the wrapper's own code (option copying, suffix info, the NLW2_Read* helpers) is a party too
+struct CRec {
+  const SolReadConfig* cfg; SolReadResult* r; size_t step = 0;
+  void fail(const char* cls, const std::string& key, const std::string& detail) {
+    if (!r->viol_class.empty()) return;
+    r->viol_class = cls; r->viol_key = key; r->viol_detail = detail;
+  }
+  ConsumerStep next() { ConsumerStep st; if (step < cfg->script.size()) st = cfg->script[step]; ++step; return st; }
+};
+NLHeader_C c_header(void* p) {
+  CRec* c = (CRec*)p;
+  NLHeader_C h; memset(&h, 0, sizeof h);
+  h.pi.num_vars = c->cfg->nvars; h.pi.num_algebraic_cons = c->cfg->ncons; h.pi.num_logical_cons = c->cfg->nlcons;
+  return h;
+}
+void c_msg(void* p, const char* s, int nbs) {
+  CRec* c = (CRec*)p; SolReadResult& r = *c->r;
+  ++r.msg_calls;
+  if (r.got_msg) c->fail("PROTOCOL", "OnSolveMessage.twice", "solve message delivered twice");
+  r.got_msg = true; r.message = s ? s : ""; r.nbs = nbs;
+}
+int c_opts(void* p, AMPLOptions_C ao) {
+  CRec* c = (CRec*)p; SolReadResult& r = *c->r;
+  ++r.opts_calls; r.got_opts = true;
+  int n = ao.n_options_;
+  if (n < 0 || n > MAX_AMPL_OPTIONS + 5) c->fail("PROTOCOL", "AMPLOptions_C.count", "C handler offered " + std::to_string(n) + " option values");
+  r.options.assign(ao.options_, ao.options_ + std::max(0, std::min(n, (int)MAX_AMPL_OPTIONS)));
+  r.has_vbtol = ao.has_vbtol_ != 0; r.vbtol = ao.vbtol_;
+  return c->cfg->options_rv;
+}
+void c_vec(void* p, int nvals, void* api, char what) {
+  CRec* c = (CRec*)p; SolReadResult& r = *c->r;
+  auto* vr = static_cast<mp::VecReader<double>*>(api);     // what the wrapper hands out (sol-handler-c-impl.h)
+  int limit = what == 'y' ? c->cfg->ncons : c->cfg->nvars;
+  if (nvals > limit) c->fail("OFFERED_TOO_MANY", what == 'y' ? "duals" : "primals", "offered " + std::to_string(nvals) + " values for " + std::to_string(limit) + " items (C handler)");
+  r.vecs.emplace_back(); VecRec& v = r.vecs.back();
+  v.what = what; v.offered = nvals;
+  ConsumerStep st = c->next(); v.mode = st.mode + "/c";
+  long n = st.mode == "none" ? 0 : (st.mode == "some" || st.mode == "seterr") ? std::min((long)st.k, (long)nvals) : (long)nvals;
+  for (long k = 0; k < n && k < 200000; ++k) {
+    double x = NLW2_ReadSolVal(api);
+    v.vals.push_back(x); v.st.push_back((int)vr->ReadResult());
+  }
+  v.final_status = (int)vr->ReadResult(); v.left = vr->Size();
+}
+void c_dual(void* p, int n, void* api) { c_vec(p, n, api, 'y'); }
+void c_primal(void* p, int n, void* api) { c_vec(p, n, api, 'x'); }
+void c_objno(void* p, int v) { CRec* c = (CRec*)p; if (c->r->got_objno) c->fail("PROTOCOL", "OnObjno.twice", "objno delivered twice"); c->r->got_objno = true; c->r->objno = v; }
+void c_code(void* p, int v) { CRec* c = (CRec*)p; if (c->r->got_code) c->fail("PROTOCOL", "OnSolveCode.twice", "solve code delivered twice"); c->r->got_code = true; c->r->code = v; }
+template <class El> void c_suf(void* p, NLW2_SuffixInfo_C si, void* api, char what) {
+  CRec* c = (CRec*)p; SolReadResult& r = *c->r;
+  auto* sr = static_cast<mp::SuffixReader<El>*>(api);
+  r.vecs.emplace_back(); VecRec& v = r.vecs.back();
+  v.what = what; v.offered = sr->Size();
+  v.name = si.name_ ? si.name_ : ""; v.table = si.table_ ? si.table_ : ""; v.sufkind = si.kind_;
+  if (v.sufkind < 0 || v.sufkind > 15) c->fail("PROTOCOL", "suffix.kind", "suffix kind " + std::to_string(v.sufkind));
+  ConsumerStep st = c->next(); v.mode = st.mode + "/c";
+  long budget = st.mode == "none" ? 0 : (st.mode == "some" || st.mode == "seterr") ? st.k : 200000;
+  while (budget-- > 0 && (what == 'i' ? NLW2_IntSuffixNNZ(api) : NLW2_DblSuffixNNZ(api)) > 0) {
+    int i = 0; double x = 0;
+    if (what == 'i') { int iv = 0; NLW2_ReadIntSuffixEntry(api, &i, &iv); x = iv; } else NLW2_ReadDblSuffixEntry(api, &i, &x);
+    v.idx.push_back(i); v.vals.push_back(x); v.st.push_back((int)sr->ReadResult());
+  }
+  if (st.mode == "seterr" && sr->Size() > 0) { if (what == 'i') NLW2_ReportIntSuffixError(api, "consumer refuses the rest"); else NLW2_ReportDblSuffixError(api, "consumer refuses the rest"); }
+  v.final_status = (int)sr->ReadResult(); v.left = sr->Size();
+}
+void c_isuf(void* p, NLW2_SuffixInfo_C si, void* api) { c_suf<int>(p, si, api, 'i'); }
+void c_dsuf(void* p, NLW2_SuffixInfo_C si, void* api) { c_suf<double>(p, si, api, 'd'); }
+
 std::string demangled(const std::type_info& ti) {
   int st = 0;
   char* d = abi::__cxa_demangle(ti.name(), nullptr, nullptr, &st);
@@ -116,8 +192,19 @@ SolReadResult read_sol(const std::string& path, const SolReadConfig& cfg) {
   SolRec h(cfg, r);
   QuietUtils utils;
   try {
-    auto res = mp::ReadSOLFile(path, h, utils, &r.internal_rv);
-    r.rc = (int)res.first; r.msg = res.second;
+    if (cfg.c_party) {
+      CRec crec{&cfg, &r};
+      NLW2_SOLHandler_C hc; memset(&hc, 0, sizeof hc);
+      hc.p_user_data_ = &crec; hc.Header = c_header; hc.OnSolveMessage = c_msg; hc.OnAMPLOptions = c_opts;
+      hc.OnDualSolution = c_dual; hc.OnPrimalSolution = c_primal; hc.OnObjno = c_objno; hc.OnSolveCode = c_code;
+      hc.OnIntSuffix = c_isuf; hc.OnDblSuffix = c_dsuf;
+      mp::NLW2_SOLHandler_C_Impl wrapped(&hc);
+      auto res = mp::ReadSOLFile(path, wrapped, utils, &r.internal_rv);
+      r.rc = (int)res.first; r.msg = res.second;
+    } else {
+      auto res = mp::ReadSOLFile(path, h, utils, &r.internal_rv);
+      r.rc = (int)res.first; r.msg = res.second;
+    }
   } catch (const std::bad_alloc&) {
     r.status = "bad_alloc";
   } catch (const std::exception& e) {
